@@ -248,6 +248,10 @@ def stream_adapter_rules(ctx, db, RID="R4"):
             # finished inner stream was taken out (terminated op)
             pn_ = [bb for bb, _ in calls(f, r"poll_next_unpin$|Stream::poll_next$")]
             inner_take = [bb for bb, t in calls(f, r"core::option::Option::<T>::take$") if "inner" in receiver_field(f, t)]
+            # ... or through a private helper of the adapter that takes the inner stream out
+            helpers = {g.id for g in db.fns.values() if g.self_adt == "compio_runtime::future::stream::SubmitMultiManaged" and g.id != f.id and
+                       any("inner" in receiver_field(g, t2) for _, t2 in calls(g, r"core::option::Option::<T>::take$"))}
+            inner_take += [bb for bb, t in f.calls() if any(h.id in helpers for h in db.callee_fns(t, expand_traits=False))]
             okr = True
             nres = 0
             for bb, t in calls(f, r"core::ops::try_trait::Try::branch$|Try>::branch$"):
